@@ -126,6 +126,24 @@ CLAIMED = {
               "TLA+ trace specification recomputes what the function must have received and where the results must live; "
               "inputs on wrong positions and arity mismatches must be rejected."),
         ref="4 C11, 3.7", technique="TLA+ spec (GridUfunc) + TLC trace validation of arguments received by a recording user function"),
+    "C14": dict(
+        text=("The COMODO (length relative to the centre, shift sign) and SGRID (padding word) decision tables, the convention "
+              "hierarchy and the conflict rule are written in TLA+; TLC checks that the COMODO table decodes every admissible "
+              "annotation of every position set back to that set, that distinct positions never share an annotation and that "
+              "the SGRID table is a bijection; datasets generated from abstract descriptions (1-3 axes, every position subset, "
+              "both shift signs, four SGRID topology kinds x four padding words, with/without space, both conventions at once, "
+              "user coords given) are parsed by the real Grid(ds) and the TLA+ trace specification derives the prescribed "
+              "axes/position->dimension assignment from the description; one operator per parsed grid is validated against the "
+              "geometric definition of C01."),
+        ref="4 C14, 3.9", technique="TLA+ decision tables (Autoparse) model-checked with TLC + TLC trace validation of real Grid(ds) parses"),
+    "C19": dict(
+        text=("The coordinate rule (the result carries exactly the grid dataset's coordinates that fit its dimensions - all "
+              "with keep_coords, only dimension coordinates without; hence the target position's coordinate on the new "
+              "dimension and nothing on the abandoned one; input name kept) is a TLA+ formula; every recorded diff/interp/min/"
+              "max/cumsum call on datasets with random 0-D/1-D/2-D coordinates, with and without dimension coordinates, inputs "
+              "labelled with the dataset's coordinates, none or foreign labels, is validated by the TLA+ trace specification "
+              "(coordinate set, values, attributes, name) and its values against the geometric definition."),
+        ref="4 C19, 3.9", technique="TLA+ formula (Coords) + TLC trace validation of real results"),
 }
 
 PENDING_REASON = "check not built yet in this session (planned; see DESIGN.md section 9 build order)"
